@@ -271,6 +271,19 @@ pub fn run(em: &mut Emit, thorough: bool, seed: u64) {
         emit_src(em, s, "nt=1;kind=corpus-macro-pos");
         emit_macro_pos(em, s, st, "corpus-macro-pos");
     }
+    // every macro name with every argument count, as a global and as a receiver call, with
+    // identifier and non-identifier first arguments
+    for name in ["has", "all", "exists", "exists_one", "existsOne", "map", "filter"] {
+        for arity in 0..=6usize {
+            for first in ["v", "1", "a.b"] {
+                let args: Vec<String> = (0..arity).map(|i| if i == 0 { first.to_string() } else { format!("a{}", i) }).collect();
+                for src in [format!("{}({})", name, args.join(", ")), format!("x.{}({})", name, args.join(", ")),
+                            format!("[x.{}({})]", name, args.join(", ")), format!("x.y.{}({}).{}({})", name, args.join(", "), name, args.join(", "))] {
+                    emit_src(em, &src, "nt=1;kind=macro-arity");
+                }
+            }
+        }
+    }
     // exhaustive token strings
     let maxlen = if thorough { 5 } else { 4 };
     for len in 1..=maxlen {
